@@ -116,6 +116,18 @@ func checkAll(c *enum.Ctx, t *tb.Cell, r *cell.Cell, mode int, tag string) {
 				c.Fail("Hasher.HashString:"+tag+":"+kind, "Hasher.HashString (call %d)=%s,%v", rep, hss, err)
 			}
 		}
+		// the cells a Merkle prover keeps are the cells it was given, whatever has been read from them before: a proof
+		// with nothing pruned is a Merkle-proof cell over a tree with the same hash
+		if rc.Level() == 0 && !rc.Special {
+			if prover, err := tb.NewMerkleProver(tc); err == nil {
+				if proof, err := prover.CreateProof(prover.Cursor()); err == nil {
+					roots, perr := rboc.Parse(proof)
+					if perr != nil || len(roots) != 1 || len(roots[0].Refs) != 1 || roots[0].Refs[0].ReprHash() != want {
+						c.Fail("prover-keeps-other-cells:"+tag, "a proof of %s with nothing pruned (query mode %d) does not contain a tree with its hash (%v)", rc.Describe(), mode, perr)
+					}
+				}
+			}
+		}
 		tc.ResetCounters()
 	}
 }
